@@ -191,6 +191,17 @@ var (
 	}
 )
 
+func init() {
+	// String() and MarshalJSON write the lowercase names: accept them when JSON is read back
+	for name, state := range StringToRequestContextStateMap {
+		RequestContextState_value[name] = int32(state)
+	}
+
+	for name, state := range StringToRequestContextBatchStateMap {
+		RequestContextBatchState_value[name] = int32(state)
+	}
+}
+
 func RequestContextStateFromString(str string) (RequestContextState, error) {
 	if state, ok := StringToRequestContextStateMap[strings.ToLower(str)]; ok {
 		return state, nil
